@@ -12,6 +12,7 @@ import ScpiVerif.Spec.Message
 import ScpiVerif.Props.C13
 import ScpiVerif.Props.C14
 import ScpiVerif.Lemmas.RoundTrip
+import ScpiVerif.Lemmas.FieldWidths
 
 namespace ScpiVerif.Props.C07
 open ScpiVerif ScpiVerif.Lexer ScpiVerif.Spec ScpiVerif.Spec.Message
@@ -82,5 +83,12 @@ theorem float_text_accepted (neg : Bool) (ip fp ex : Bytes) (eneg : Bool)
                         (if ex = [] then [] else [101] ++ (if eneg then [45] else [43]) ++ ex)
     (Lexer.lexDecimal (text ++ tail) 0).2.2 = text.length ∧ Prim.strtodLen (text ++ tail) 0 = text.length :=
   Lemmas.RoundTrip.float_text_accepted neg ip fp ex eneg hip hfp hex tail htail
+
+/-- ASCII arrays are written element by element through the scalar writers; the element separators depend on the item counter
+`context->output_count`, which (as compiled from the current source) is signed and at least 32 bits wide: arrays of fewer than 2^31
+elements are separated by commas throughout (widths regenerated by the translator on every run) -/
+theorem item_counter_wide_enough :
+    Lemmas.FieldWidths.SignedAtLeast Gen.fw_ctx_output_count 32 :=
+  Lemmas.FieldWidths.output_count
 
 end ScpiVerif.Props.C07
